@@ -45,6 +45,23 @@ func c12Shapes() []*spec.Spec {
 			&spec.Conn{From: "T.out", To: "B.in"}, &spec.Conn{From: "T.out", To: "K.in"})
 		out = append(out, s)
 	}
+	// raw source files (no audit file yet) straight to a tagging component and to reading siblings
+	{
+		s := mk("rawsource_tagging", 16)
+		s.Procs = append(s.Procs, &spec.Proc{Name: "T", Kind: spec.KMapToTags, Tags: []*spec.TagRule{{Key: "grp", Rule: "idx"}, {Key: "k", Rule: "stem"}}},
+			cmd("B", in, o1, 1), cmd("sib1", in, o1, 1), cmd("sib2", in, []spec.PortDecl{{Name: "out"}, {Name: "res"}}, 1))
+		s.Conns = append(s.Conns, &spec.Conn{From: "src.out", To: "T.in"}, &spec.Conn{From: "src.out", To: "sib1.in"}, &spec.Conn{From: "src.out", To: "sib2.in"}, &spec.Conn{From: "T.out", To: "B.in"})
+		s.MaxTasks = 8
+		out = append(out, s)
+	}
+	// a process without out-ports (the driver) with many short tasks in flight at once
+	{
+		s := mk("outportless_many", 24)
+		s.Procs = append(s.Procs, cmd("A", in, o1, 1), cmd("check", in, nil, 1))
+		s.Conns = append(s.Conns, &spec.Conn{From: "src.out", To: "A.in"}, &spec.Conn{From: "A.out", To: "check.in"})
+		s.MaxTasks = 8
+		out = append(out, s)
+	}
 	// two outputs of one task to different consumers, each tagged
 	{
 		s := mk("twoout_tagging", 6)
